@@ -322,7 +322,7 @@ func cmdRun(args []string) int {
 		for i, mp := range []string{"1", "16"} {
 			out := filepath.Join(ws.Dir, "xproc-"+mp+".json")
 			cmd := exec.Command(ws.Exec, "run", "--prop", prop, "--tier", *tier, "--seed", fmt.Sprint(seed), "--worker", "0", "--workers", "1",
-				"--count", fmt.Sprint(n), "--out", os.DevNull, "--hashes", out, "--replays", filepath.Join(ws.Dir, "xr"))
+				"--count", fmt.Sprint(n), "--out", os.DevNull, "--hashes", out, "--obs-hashes", "--replays", filepath.Join(ws.Dir, "xr"))
 			if i == 1 {
 				// the second process meets the scenarios in the opposite order: whatever a
 				// process keeps from one evaluation to the next differs between the two
@@ -576,7 +576,7 @@ func runXorder(ws *Workspace, f xorderFile) (bool, string) {
 	for i := 0; i < 2; i++ {
 		out := filepath.Join(ws.Dir, fmt.Sprintf("xorder-%d.json", i))
 		cmd := exec.Command(ws.Exec, "run", "--prop", f.Property, "--tier", f.Tier, "--seed", fmt.Sprint(f.Seed), "--worker", "0", "--workers", "1",
-			"--count", fmt.Sprint(f.Count), "--out", os.DevNull, "--hashes", out, "--replays", filepath.Join(ws.Dir, "xr"))
+			"--count", fmt.Sprint(f.Count), "--out", os.DevNull, "--hashes", out, "--obs-hashes", "--replays", filepath.Join(ws.Dir, "xr"))
 		if i == 1 {
 			cmd.Args = append(cmd.Args, "--reverse")
 		}
